@@ -75,8 +75,17 @@ Definition is_open (w : world) (e : endpoint) : bool := existsb (endpoint_eqb e)
 Definition remove_file (p : bytes) (l : list bytes) : list bytes := filter (fun q => negb (bytes_eqb p q)) l.
 Definition remove_open (e : endpoint) (l : list endpoint) : list endpoint := filter (fun q => negb (endpoint_eqb e q)) l.
 
+(* the port part: what follows the last ':' (the whole string if there is none) *)
+Fixpoint port_after (cur : bytes) (l : bytes) : bytes :=
+  match l with
+  | [] => cur
+  | c :: r => if c =? 58 then port_after [] r else port_after (cur ++ [c]) r
+  end.
+
+(* the address asks for an ephemeral port: the port part is empty or all zeros ("", "host:", ":0", ":00");
+   the empty address "" (from "tcp:") is the wildcard host with an ephemeral port as well *)
 Definition ends_with_port0 (hp : bytes) : bool :=
-  match rev hp with 48 :: 58 :: _ => true | _ => false end.
+  forallb (fun c => c =? 48) (port_after [] hp).
 
 (* net.Listen on an endpoint the OS considers well-formed ([ok] is the oracle for
    that: existing directory, path length, resolvable host, free port).
@@ -89,7 +98,7 @@ Definition os_listen (ok : bool) (e : endpoint) (w : world) : option world :=
             the file is gone either way, bind(2) then succeeds *)
          Some (mkWorld (p :: remove_file p (w_files w)) (e :: remove_open e (w_open w)))
        | ETcp hp =>
-         (* port 0 asks for a fresh port: it never collides and nobody can name it *)
+         (* port 0 / no port asks for a fresh port: it never collides and nobody can name it *)
          if ends_with_port0 hp then Some w
          else if is_open w e then None else Some (mkWorld (w_files w) (e :: w_open w))
        | _ => if is_open w e then None else Some (mkWorld (w_files w) (e :: w_open w))
